@@ -31,12 +31,6 @@ open Arche.Props.C01 (WInv)
 
 /-! ## event masks are set differences; replay -/
 
-theorem get_and (a b : Mask) (j : Nat) : Mask.get (a &&& b) j = (Mask.get a j && Mask.get b j) := by
-  unfold Mask.get; exact Nat.testBit_and a b j
-theorem get_or (a b : Mask) (j : Nat) : Mask.get (a ||| b) j = (Mask.get a j || Mask.get b j) := by
-  unfold Mask.get; exact Nat.testBit_or a b j
-theorem get_xor (a b : Mask) (j : Nat) : Mask.get (a ^^^ b) j = (Mask.get a j ^^ Mask.get b j) := by
-  unfold Mask.get; exact Nat.testBit_xor a b j
 
 /-- the masks `notifyExchange` computes are the two set differences -/
 theorem diff_masks (old new : Mask) (j : Nat) :
@@ -252,7 +246,7 @@ theorem exchange_event_sets (w : World) (e : Entity) (add rem : List CompId) (re
   obtain ⟨_, x, hok, hd⟩ := exchange_event_after_unlocked w e add rem rel target d h
   obtain ⟨h1, h2, h3, h4, _⟩ := exchange_event_diff _ _ _ _ _ _ hd
   obtain ⟨_, hm, _, _, _⟩ := C01.exchange_spec w e add rem rel target x hI hl he hok
-  obtain ⟨tgt, mask, hmask, hne, hf, hw⟩ := C01.exchange_world w e add rem rel target x hok
+  obtain ⟨tgt, mask, hmask, _, hne, hf, hw⟩ := C01.exchange_world w e add rem rel target x hok
   have hold : x.oldMask = w.tableMask (w.locOf e).tbl := by
     unfold exchangeNoNotify at hok
     by_cases hlk : w.isLocked = true
